@@ -7,6 +7,7 @@ import (
 	"sort"
 	"strings"
 
+	"golang.org/x/tools/go/packages"
 	"golang.org/x/tools/go/ssa"
 )
 
@@ -157,7 +158,7 @@ func ruleC19Direct(c *Ctx, r *Rep) {
 		}
 	}
 	// transitive: functions of gojq outside the allowed set must not reach an ambient symbol through in-module callees
-	// (third-party and standard-library internals are out of scope: e.g. timefmt and time zone data)
+	// or through the module's own dependencies (standard-library internals are out of scope: e.g. time zone data)
 	allowedFn := func(f *ssa.Function) bool {
 		for f.Parent() != nil {
 			f = f.Parent()
@@ -194,7 +195,44 @@ func ruleC19Direct(c *Ctx, r *Rep) {
 			}
 		}
 	}
-	// static in-package call edges only (dynamic edges are capability grants: loaders, callbacks, iterators)
+	// the module's own (non-standard-library) dependencies are followed too: a formatting or parsing library that reads
+	// time.Local or the environment on the library's behalf is the library's ambient authority (timefmt.Parse resolves
+	// %Z against time.Local). The standard library's internals stay out of scope.
+	depPkgs := map[string]bool{}
+	packages.Visit([]*packages.Package{c.Gojq}, nil, func(dp *packages.Package) {
+		if dp == c.Gojq || dp.Types == nil {
+			return
+		}
+		first := dp.PkgPath
+		if i := strings.Index(first, "/"); i >= 0 {
+			first = first[:i]
+		}
+		if strings.Contains(first, ".") && !strings.HasPrefix(dp.PkgPath, "golang.org/x/") {
+			depPkgs[dp.PkgPath] = true
+			for _, f := range c.PkgFuncs(dp) {
+				for _, b := range f.Blocks {
+					for _, in := range b.Instrs {
+						for _, op := range in.Operands(nil) {
+							if *op == nil {
+								continue
+							}
+							switch v := (*op).(type) {
+							case *ssa.Function:
+								if v.Object() != nil && ambientSymbol(v.Object()) {
+									directUser[f] = v.Object().Pkg().Name() + "." + v.Object().Name()
+								}
+							case *ssa.Global:
+								if v.Object() != nil && ambientSymbol(v.Object()) {
+									directUser[f] = v.Object().Pkg().Name() + "." + v.Object().Name()
+								}
+							}
+						}
+					}
+				}
+			}
+		}
+	})
+	// static call edges only (dynamic edges are capability grants: loaders, callbacks, iterators)
 	bad := 0
 	for _, f := range c.PkgFuncs(c.Gojq) {
 		if allowedFn(f) {
@@ -205,7 +243,8 @@ func ruleC19Direct(c *Ctx, r *Rep) {
 		for len(stack) > 0 {
 			g := stack[len(stack)-1]
 			stack = stack[:len(stack)-1]
-			if sym, ok := directUser[g]; ok && !allowedFn(g) {
+			inDep := g.Pkg != nil && depPkgs[g.Pkg.Pkg.Path()]
+			if sym, ok := directUser[g]; ok && !allowedFn(g) && !inDep {
 				continue // reported as a direct use above
 			} else if ok && g != f {
 				bad++
@@ -214,7 +253,7 @@ func ruleC19Direct(c *Ctx, r *Rep) {
 			for _, b := range g.Blocks {
 				for _, in := range b.Instrs {
 					if ci, ok := in.(ssa.CallInstruction); ok {
-						if sc := ci.Common().StaticCallee(); sc != nil && sc.Pkg != nil && sc.Pkg.Pkg.Path() == pathGojq && !seen[sc] {
+						if sc := ci.Common().StaticCallee(); sc != nil && sc.Pkg != nil && (sc.Pkg.Pkg.Path() == pathGojq || depPkgs[sc.Pkg.Pkg.Path()]) && !seen[sc] {
 							seen[sc] = true
 							stack = append(stack, sc)
 						}
